@@ -409,7 +409,7 @@ func valueDeviation(name string, m *refmodel.Model, sc *SCase, d refmodel.Doc, w
 	return false
 }
 
-var classRoots = []string{"pair:", "num:", "str:", "type:", "arr:", "item:", "absent", "null", "enum-", "map:", "mapval:", "addl:", "any:", "extra-key", "format:", "bool", "obj:", "multi"}
+var classRoots = []string{"assign(", "pair:", "num:", "str:", "type:", "arr:", "item:", "absent", "null", "enum-", "map:", "mapval:", "addl:", "any:", "extra-key", "format:", "bool", "obj:", "multi"}
 
 // coarseClass drops property names and numeric details from a document class.
 func coarseClass(c string) string {
